@@ -295,7 +295,7 @@ PLAN["C19"] = {
     "technique": "bounded exhaustive enumeration of automata x all state bijections x symbol permutations x insertion orders; exhaustive pair/triple enumeration over the finite shipped corpus (metamorphic laws)",
     "quick": [("rel", "c19.small.single.n3k3"), ("rel", "c19.small.pairs.n2t3"), ("rel", "c19.small.pairs.trim.n2s3.a2b3"), ("rel", "c19.small.pairs.trim.n2s2.a3b3"), ("rel", "c19.corpus.small.single"), ("rel", "c19.corpus.small.pairs"), ("rel", "c19.corpus.smaller.single"),
               ("rel", "c19.corpus.smaller.triples"), ("rel", "c19.corpus.moderate.single")],
-    "thorough": [("rel", "c19.small.single.n3k3"), ("rel", "c19.small.pairs.n2k2"), ("rel", "c19.small.pairs.trim.n2s3.a3b3"), ("rel", "c19.small.pairs.trim.n2s2.a3b5"), ("rel", "c19.corpus.small.single"), ("rel", "c19.corpus.small.pairs"), ("rel", "c19.corpus.smaller.single"),
+    "thorough": [("rel", "c19.small.single.n3k3"), ("rel", "c19.small.pairs.n2k2"), ("rel", "c19.small.pairs.trim.n2s3.a3b3"), ("rel", "c19.small.pairs.trim.n2s2.a3b5"), ("rel", "c19.small.pairs.trim.n3abf.a4b2"), ("rel", "c19.corpus.small.single"), ("rel", "c19.corpus.small.pairs"), ("rel", "c19.corpus.smaller.single"),
                  ("rel", "c19.corpus.smaller.triples"), ("rel", "c19.corpus.moderate.single"), ("rel", "c19.corpus.smaller.pairs")],
     "require": {"all": ["variants", "calls", "expect_not_included", "equivalence_checks", "variant_calls", "law_checks", "transitivity_triples_with_both_premises"]},
 }
